@@ -22,7 +22,8 @@ def refine_mechanism(cls: str, v: Dict[str, Any]) -> str:
     d = v["detail"]
     if re.search(r"duplicate argument '(self|kwargs)'", d):
         return "variable-named-self-or-kwargs"
-    if "invalid enum member name" in d or "member order does not match _order_" in d or re.search(r"input_value='(_ignore_|_order_|_missing_|_generate_next_value_|mro)'", d):
+    if ("invalid enum member name" in d or "member order does not match _order_" in d or re.search(r"input_value='(_ignore_|_order_|_missing_|_generate_next_value_|mro)'", d)
+            or re.search(r"has no attribute '(_ignore_|_order_|_missing_|_generate_next_value_)'", d)):  # the value never became a member, so a default naming it cannot resolve
         return "enum-value-reserved-by-python-enum"
     if cls == "names.underscore_digit" and (re.search(r"Cannot parse.*\n\s+[0-9]", d, re.S) or "illegal target for annotation" in d or "invalid decimal literal" in d):
         return "name-leading-underscore-then-digit"  # the generated module is not Python because a name starts with a digit
